@@ -33,6 +33,7 @@ var c15BridgeWrap func(protocol.ChainBridge) protocol.ChainBridge
 
 func c15NewCtx(c *fw.C, caseID string) *c15Ctx {
 	e := c15GetEnv(c)
+	e.curC, e.curCtx, e.stallReported = c, caseID, false
 	x := &c15Ctx{c: c, e: e, caseID: caseID}
 	var br protocol.ChainBridge = e.T.Bridge
 	if c15BridgeWrap != nil {
@@ -142,6 +143,7 @@ func (x *c15Ctx) checkHonest(after string, wit interface{}) {
 	case "wrong":
 		x.c.Violation("honest-probe-wrong-answer after "+after, map[string]interface{}{"hostile": wit})
 	default:
+		x.e.stallVerdict("honest probe unanswered after " + after)
 		x.c.Inconclusive("honest probe unanswered when the watchdog fired, after " + after)
 		x.dead = true
 		x.e.tainted = true
